@@ -89,6 +89,10 @@ func init() {
 		"vpNot":     func(fr *frame, a []value) value { return fr.i.boolNot(a[0]) },
 		"vpImplies": func(fr *frame, a []value) value { return fr.i.boolOr(fr.i.boolNot(a[0]), a[1]) },
 		"vpEqBytes": func(fr *frame, a []value) value { return fr.i.bytesEqual(a[0].([]value), a[1].([]value)) },
+		"vpPowOK": func(fr *frame, a []value) value {
+			p := ptrArg(a[0])
+			return fr.i.powOK((*p).(structure))
+		},
 		"vpIte32": func(fr *frame, a []value) value {
 			return fr.i.ite(a[0], a[1], a[2], types.Typ[types.Uint32])
 		},
@@ -325,6 +329,8 @@ func (i *interpreter) vpOpt(name string, v int) {
 		i.sched.timerBudget = v
 	case "timestep":
 		i.p.timeStep = v
+	case "clock":
+		i.p.concreteClock = v != 0
 	default:
 		panic(engineError{"vpOpt: unknown option " + name})
 	}
